@@ -1269,6 +1269,11 @@ func (x *Exec) invariantLoop(st *State, ls *loopSpec, inv []Clause) []outcome {
 		if !ok {
 			continue
 		}
+		if strings.HasPrefix(ls.label, "goto:") && o.Pos() >= ls.body.Pos() && o.Pos() < ls.body.End() {
+			// declared after the label: every pass through the loop declares it afresh
+			delete(h.vars, o)
+			continue
+		}
 		if r, isRef := cur.(RefV); isRef {
 			h.mem[r.Alloc] = x.havocLike(e, h.mem[r.Alloc], o.Name())
 			continue
